@@ -473,6 +473,18 @@ func runGated(c run.Ctx, res *core.CaseResult, prop string) *core.CaseResult {
 	var u gen.Universe
 	for {
 		u = gen.MakeUniverse(r, cfg.Primary, 5+r.IntN(4))
+		if prop != "" {
+			// these scripts lay records out in files of a few hundred bytes: keys must fit several times
+			long := false
+			for _, k := range u.Keys {
+				if len(k.Raw) > 90 {
+					long = true
+				}
+			}
+			if long {
+				continue
+			}
+		}
 		if _, _, ok := sameBucketPair(u, cfg.Bits); ok {
 			break
 		}
